@@ -1,6 +1,8 @@
 package main
 
 import (
+	"go/types"
+
 	"golang.org/x/tools/go/ssa"
 )
 
@@ -11,6 +13,9 @@ import (
 //     0x80>>(i%8) in byte i/8), without forking.
 //   - collection.Equal[T] on slices of scalars: one conjunction instead of an early-exit loop
 //     (n+1 paths). Other element types run the Go body.
+//   - collection/ints.Max / Min: the Go body sorts a copy with sort.Slice (forks on every comparison and
+//     is limited to 8 elements by the sort.Slice intrinsic); here an ite chain. Empty input runs the Go
+//     body (it panics).
 //   - encoding/hex.EncodeToString of symbolic bytes: the built-in version returns a fresh opaque string
 //     per call, so two equal symbolic byte strings get different map keys (smt.Verify's duplicate-query
 //     check was never reached). Here the result is the real symbolic string (two hex digits per byte).
@@ -65,4 +70,42 @@ func init() {
 		}
 		return m.mkString(out)
 	}
+	extreme := func(max bool) intrinsicFn {
+		return func(m *Machine, fn *ssa.Function, a []Value) Value {
+			in := a[0].(SliceVal)
+			if in.Len == 0 {
+				return m.callPlain(fn, a, nil)
+			}
+			unsigned := false
+			if b, ok := fn.Signature.Results().At(0).Type().Underlying().(*types.Basic); ok {
+				unsigned = b.Info()&types.IsUnsigned != 0
+			}
+			tt := m.tt
+			var best *Term
+			for i := 0; i < in.Len; i++ {
+				x, ok := in.Cells[i].V.(*Term)
+				if !ok {
+					return m.callPlain(fn, a, nil)
+				}
+				if best == nil {
+					best = x
+					continue
+				}
+				var less *Term // best < x
+				if unsigned {
+					less = tt.Ult(best, x)
+				} else {
+					less = tt.Slt(best, x)
+				}
+				if max {
+					best = tt.Ite(less, x, best)
+				} else {
+					best = tt.Ite(less, best, x)
+				}
+			}
+			return best
+		}
+	}
+	intrinsics["github.com/LiskHQ/lisk-engine/pkg/collection/ints.Max"] = extreme(true)
+	intrinsics["github.com/LiskHQ/lisk-engine/pkg/collection/ints.Min"] = extreme(false)
 }
